@@ -38,6 +38,13 @@ Second pass (streams in harness/c15_ext.py, translator/gen_units.py → Gen/Unit
                split_into_fragments, tortuosity; thorough: mesh2skeleton) with strings, neuron in two units, every back-end.
  (m) `mapx`    map_units on NeuronLists, `on_error`, function form, bare pint.Unit;  `nlarith` NeuronList `* /` and
                `convert_units` against the members.
+ (u) `addunits` `navis.config.add_units = True` (restored afterwards): cable_length / surface_area / volume of skeletons, meshes,
+               voxels in 1 nm / 8 nm / 0.5 um / per-axis / no units and their `* / *=` / convert_units versions: the reported
+               quantity, converted to base units by pint, against the Lean `addUnitsPhys` with the power literal of the
+               generated `@add_units` site (`c15.addunits`, checker `addUnitsB`), its dimension, and invariance under scaling.
+ (o) `optsweep` metadata sweep with an option dimension: per operation the non-default value of every bool / Literal option
+               of its signature (one at a time) plus listed value sets (make_dotprops: k ∈ {20, 5, 0, None} × resample ∈
+               {False, number, unit string}; NeuronList input), every input type.
  The metadata sweep additionally covers every method with `inplace=` that the translator finds in the four classes
  (`Gen.Units.inplaceMethods`), in-place forms and NeuronList forms; uncovered methods / call sites become evidence notes.
 """
@@ -1017,7 +1024,7 @@ def case_rewrap(ctx, case):
                    f'TreeNeuron(table) without units is {z.units!r}, expected 1 dimensionless', case)
 
 
-RUNNERS = {'hist': E.case_hist, 'histmd': E.case_histmd, 'strsite': E.case_strsite, 'mapx': E.case_mapx, 'm2s': E.case_m2s, 'strzero': E.case_strzero, 'nlarith': E.case_nlarith, 'rewrap': case_rewrap, 'setunits': case_setunits, 'arith': case_arith, 'convert': case_convert, 'map': case_map,
+RUNNERS = {'hist': E.case_hist, 'histmd': E.case_histmd, 'strsite': E.case_strsite, 'mapx': E.case_mapx, 'm2s': E.case_m2s, 'strzero': E.case_strzero, 'nlarith': E.case_nlarith, 'addunits': E.case_addunits, 'optsweep': E.case_optsweep, 'rewrap': case_rewrap, 'setunits': case_setunits, 'arith': case_arith, 'convert': case_convert, 'map': case_map,
            'strarg': case_strarg, 'sweep': case_sweep}
 
 
@@ -1095,6 +1102,13 @@ def gen_cases(ctx):
     # (m) map_units: NeuronList, on_error, function form, pint.Unit
     for i in range(ctx.budget(80, 800)):
         yield 'mapx', E.gen_mapx(r, i)
+    # (u) config.add_units = True: unit-carrying properties as physical quantities, invariant under scaling
+    for i in range(ctx.budget(80, 600)):
+        yield 'addunits', E.gen_addunits(r, i)
+    # (o) metadata sweep with an option dimension (non-default bool / Literal / listed values per operation)
+    for rep in range(ctx.budget(1, 6)):
+        for c_ in E.gen_optsweep(r, rep):
+            yield 'optsweep', c_
     # (f') re-wrapping: default keeps, explicit units override, bare table is dimensionless
     specs = [sp[0] for sp in SPELLINGS.values()] + BAD_UNITS[:2]
     for i in range(ctx.budget(40, 400)):
@@ -1149,6 +1163,8 @@ def run(ctx):
         '`inplace=` found in the source) × neuron type × 8 unit forms; hist: per back-end a deterministic core (all caches warm, then '
         'each operator form once) + random histories of 1-3 steps with re-warming, 9 unit forms, scalar/4-vector/offset operands, '
         'convert_units; histmd: cube MeshNeuron / Dotprops with up to 48 points (more than one KD-tree leaf), warm → operator(s); '
+        'addunits: T/T/M/V × 10 unit forms × {x, x*k, x/k, x*=k, convert_units} with config.add_units on; optsweep: every operation × '
+        'every one-at-a-time option variant read from its signature + listed sets; '
         'strsite: 7 further map_units call sites × units × rescale factor × back-end; mapx / nlarith: NeuronList, on_error, '
         'pint.Unit, elementwise arithmetic. distinct = JSON digest')
     ctx.extra['assumptions'] = [
